@@ -9,6 +9,7 @@ B: request histories against an independent array model on the real simulator ob
    types, tags bound to explicit addresses sharing an instance, symbolic vs numeric addressing,
    Read/Write Tag [Fragmented], Get/Set Attribute Single (bounded).
 """
+from .util import distinct_keys
 import itertools
 import random
 
@@ -258,7 +259,7 @@ def bounded(tier, seed):
                     violations.append(dict(key='tag name %r (same tag as %r)' % (nm, groups[g][0]),
                                            observed='status %r data %r' % (d.status, d.get('read_tag.data')),
                                            required='names equal up to ISO-8859-1 case denote one tag, all others are distinct tags'))
-    return dict(evaluations=ev, distinct_nontrivial=len(distinct),
+    return dict(evaluations=ev, distinct_nontrivial=len(distinct), distinct_keys=distinct_keys(distinct),
                 rule='seeded request histories (%d steps per type pair) over 4 tags: two bound to @0x93/3/1 and @0x93/3/2 (one instance), a scalar '
                      'and a Message-Router allocated array; all 11 numeric element types; Read/Write Tag by symbolic name (also lower-case) and by '
                      'numeric address, Read/Write Tag Fragmented, Get/Set Attribute Single; after each request every tag is compared with an '
